@@ -217,14 +217,20 @@ Proof. unfold dbind, dret. destruct (m d) as [[[] d']|]; reflexivity. Qed.
 Lemma pass_on {A} (m : DM A) d : (v <~ m ;; dret v) d = m d.
 Proof. unfold dbind, dret. destruct (m d) as [[x d']|]; reflexivity. Qed.
 
+(** a wrapper whose translated body only passes the call on (whatever the nesting of blocks around it) *)
+Ltac via R G := unfold drun, dbind, dret in *; rewrite R; eexists _, _; split; [reflexivity | exact G].
+
 Theorem tie_single_item_wrappers k s src out : wf k s ->
   (exists r d, drun (d_get_workable (denv_of k s src)) (view k s out) = Some (r, d) /\ grant_one_res k s out r d) /\
   (exists r d, drun (d_get_next_item_mut (denv_of k s src)) (view k s out) = Some (r, d) /\ grant_one_res k s out r d) /\
   (exists r d, drun (d_get_next_item_mut_init (denv_of k s src)) (view k s out) = Some (r, d) /\ grant_one_res k s out r d) /\
   (exists r d, drun (d_peek_ref (denv_of k s src)) (view k s out) = Some (r, d) /\ grant_one_res k s out r d).
 Proof.
-  intros Hwf. unfold d_get_workable, d_get_next_item_mut, d_get_next_item_mut_init, d_peek_ref, drun. rewrite !pass_on.
-  repeat split; [apply tie_next_ref_mut | apply tie_next_ref_mut | apply tie_next_ref_mut_init | apply tie_next_ref]; auto.
+  intros Hwf.
+  destruct (tie_next_ref_mut k s src out Hwf) as (r1 & d1 & R1 & G1).
+  destruct (tie_next_ref_mut_init k s src out Hwf) as (r2 & d2 & R2 & G2).
+  destruct (tie_next_ref k s src out Hwf) as (r3 & d3 & R3 & G3).
+  repeat split; [unfold d_get_workable; via R1 G1 | unfold d_get_next_item_mut; via R1 G1 | unfold d_get_next_item_mut_init; via R2 G2 | unfold d_peek_ref; via R3 G3].
 Qed.
 
 (** ** [next] / [next_duplicate] = [pop] *)
@@ -292,7 +298,10 @@ Qed.
 Theorem tie_pop_wrappers :
   (exists r d, drun (d_pop_move E) (view C s out) = Some (r, d) /\ pop_res true r d) /\
   (exists r d, drun (d_pop E) (view C s out) = Some (r, d) /\ pop_res false r d).
-Proof. unfold d_pop_move, d_pop, drun. rewrite !pass_on. split; [apply tie_next | apply tie_next_duplicate]. Qed.
+Proof.
+  destruct tie_next as (r1 & d1 & R1 & G1). destruct tie_next_duplicate as (r2 & d2 & R2 & G2).
+  split; [unfold d_pop_move; via R1 G1 | unfold d_pop; via R2 G2].
+Qed.
 End Pop.
 
 (** ** [_push] with the closures of [push] / [push_init] = the Model's [push] *)
@@ -429,6 +438,15 @@ Proof.
   - intros G. apply Nat.leb_le in G. unfold fresh, avail_of, pavail, dist in G. destruct k; cases; lia.
 Qed.
 
+(** the proofs do not depend on how the source spells the wrap test ([a + b >= len], [len <= a + b], [a + b < len] with swapped
+    branches ...): both cases of the test are decided by [lia] wherever a comparison occurs *)
+Ltac decide_cmps :=
+  repeat (match goal with
+  | |- context[?a <=? ?b] => first [bt (a <=? b) | bf (a <=? b)]
+  | |- context[?a <? ?b] => first [bt (a <? b) | bf (a <? b)]
+  | |- context[?a =? ?b] => first [replace (a =? b) with true by (symmetry; apply Nat.eqb_eq; lia) | replace (a =? b) with false by (symmetry; apply Nat.eqb_neq; lia)]
+  end; cbn [negb fst snd]).
+
 Section Chunk.
 Variables (k : stage) (s : mstate) (src out : list cell) (n : nat).
 Hypothesis Hwf : wf k s.
@@ -466,15 +484,6 @@ Ltac mem_step :=
   repeat (first [ rewrite lift_get_index | rewrite lift_uadd by lia | rewrite lift_usub by lia
                 | rewrite ptr_add_ok by lia | rewrite raw_parts_ok by lia ]; dm; cbn [local_of l_index]).
 
-(** the proofs do not depend on how the source spells the wrap test ([a + b >= len], [len <= a + b], [a + b < len] with swapped
-    branches ...): both cases of the test are decided by [lia] wherever a comparison occurs *)
-Ltac decide_cmps :=
-  repeat (match goal with
-  | |- context[?a <=? ?b] => first [bt (a <=? b) | bf (a <=? b)]
-  | |- context[?a <? ?b] => first [bt (a <? b) | bf (a <? b)]
-  | |- context[?a =? ?b] => first [replace (a =? b) with true by (symmetry; apply Nat.eqb_eq; lia) | replace (a =? b) with false by (symmetry; apply Nat.eqb_neq; lia)]
-  end; cbn [negb fst snd]).
-
 Ltac chunk_finish :=
   unfold Seq.rd, chunk, geb, gtb;
   match goal with HA : slots ?x = slots s, HB : mlen ?x = mlen s |- _ =>
@@ -496,8 +505,10 @@ Theorem tie_slice_wrappers k s src out n : wf k s ->
   (exists r d, drun (d_get_next_slices_mut (denv_of k s src) n) (view k s out) = Some (r, d) /\ grant_res k s out n r d) /\
   (exists r d, drun (d_peek_slice (denv_of k s src) n) (view k s out) = Some (r, d) /\ grant_res k s out n r d).
 Proof.
-  intros Hwf. unfold d_get_workable_slice_exact, d_get_next_slices_mut, d_peek_slice, drun. rewrite !pass_on.
-  repeat split; [apply tie_next_chunk_mut | apply tie_next_chunk_mut | apply tie_next_chunk]; auto.
+  intros Hwf.
+  destruct (tie_next_chunk_mut k s src out n Hwf) as (r1 & d1 & R1 & G1).
+  destruct (tie_next_chunk k s src out n Hwf) as (r2 & d2 & R2 & G2).
+  repeat split; [unfold d_get_workable_slice_exact; via R1 G1 | unfold d_get_next_slices_mut; via R1 G1 | unfold d_peek_slice; via R2 G2].
 Qed.
 
 (** ** the forms that first take a fresh look: [get_workable_slice_avail], [get_workable_slice_multiple_of], [peek_available] *)
@@ -534,12 +545,11 @@ Theorem tie_get_workable_slice_avail :
 Proof.
   unfold d_get_workable_slice_avail, d_available, view. dm. cbn [denv_of dn_avail].
   rewrite lift_avail by exact Hwf. dm.
-  destruct (fresh k s) eqn:F.
+  destruct (fresh k s) eqn:F; decide_cmps.
   - dm. eexists _, _. split; [reflexivity|]. split; [reflexivity|]. split; [constructor; cbn; auto | reflexivity].
   - rewrite view_refresh. rewrite <- (denv_refresh k s src).
     destruct (tie_next_chunk_mut k s1 src out (S n) (wf_refresh k s Hwf)) as (r & d & R & G).
-    unfold d_get_workable_slice_exact. rewrite !pass_on. unfold drun in R. rewrite R. dm.
-    eexists _, _. split; [reflexivity|]. exact G.
+    unfold d_get_workable_slice_exact. via R G.
 Qed.
 
 Theorem tie_peek_available :
@@ -549,8 +559,7 @@ Proof.
   rewrite lift_avail by exact Hwf. dm.
   rewrite view_refresh. rewrite <- (denv_refresh k s src).
   destruct (tie_next_chunk k s1 src out (fresh k s) (wf_refresh k s Hwf)) as (r & d & R & G).
-  unfold d_peek_slice. rewrite !pass_on. unfold drun in R. rewrite R. dm.
-  eexists _, _. split; [reflexivity|]. exact G.
+  unfold d_peek_slice. via R G.
 Qed.
 
 (** [rhs = 0] panics (remainder by zero) after the fresh look, as the Model says ([OPanic]); otherwise: *)
@@ -565,12 +574,11 @@ Proof.
   rewrite lift_avail by exact Hwf. dm. unfold umod. destruct rhs as [|r']; [congruence|]. dm.
   pose proof (Nat.mod_le (fresh k s) (S r') ltac:(lia)) as Hm.
   rewrite lift_usub by exact Hm. dm.
-  destruct (fresh k s - fresh k s mod S r') eqn:F.
+  destruct (fresh k s - fresh k s mod S r') eqn:F; decide_cmps.
   - dm. eexists _, _. split; [reflexivity|]. split; [reflexivity|]. split; [constructor; cbn; auto | reflexivity].
   - rewrite view_refresh. rewrite <- (denv_refresh k s src).
     destruct (tie_next_chunk_mut k s1 src out (S n) (wf_refresh k s Hwf)) as (r & d & R & G).
-    unfold d_get_workable_slice_exact. rewrite !pass_on. unfold drun in R. rewrite R. dm.
-    eexists _, _. split; [reflexivity|]. exact G.
+    unfold d_get_workable_slice_exact. via R G.
 Qed.
 
 Theorem tie_multiple_of_zero_panics : drun (d_get_workable_slice_multiple_of E 0) (view k s out) = None.
@@ -579,3 +587,59 @@ Proof.
   rewrite lift_avail by exact Hwf. dm. reflexivity.
 Qed.
 End AvailForms.
+
+(** ** [wait_for]: the one busy-waiting call.  Every round is one fresh look ([_available]: one Acquire load of the successor's index,
+      remembered); nothing is published, no cell is touched; it returns in the first round in which enough items are there.  (In this
+      sequential view the successor does not move: either it returns at once or it is still spinning when the fuel runs out.) *)
+Lemma lift_avail_env k s0 s sl pubs evs nid out : wf k s -> env_of k s0 = env_of k s ->
+  lift (avail_kernel k (env_of k s0)) (mkD (local_of k s) sl pubs evs nid out) =
+  Some (fresh k s, mkD (local_of k (fst (refresh k s))) sl pubs evs nid out).
+Proof. intros Hwf He. rewrite He. apply lift_avail. exact Hwf. Qed.
+
+Lemma env_refresh k s : env_of k (fst (refresh k s)) = env_of k s.
+Proof. unfold env_of, refresh, set_ca, set_it, succ_idx. cbn. destruct k; reflexivity. Qed.
+
+Section WaitFor.
+Variables (k : stage) (s : mstate) (src out : list cell).
+Hypothesis Hwf : wf k s.
+Local Notation E := (denv_of k s src).
+Local Notation s1 := (fst (refresh k s)).
+
+Lemma refresh_idem : fresh k s1 = fresh k s /\ fst (refresh k s1) = s1.
+Proof.
+  destruct s as [ml sl pb fl [[ia ca0 da ha] [ib cb db hb] [ic cc dc hc]] hw hp ow fr ni].
+  unfold refresh, fresh, set_ca, set_it, it_of, succ_idx. destruct k; cbn; split; reflexivity.
+Qed.
+
+Theorem tie_wait_for fuel count :
+  drun (d_wait_for E fuel count) (view k s out) =
+  Some (match fuel with 0 => None | S _ => if count <=? fresh k s then Some tt else None end,
+        match fuel with 0 => view k s out | S _ => view k s1 out end).
+Proof.
+  unfold d_wait_for, drun. destruct fuel as [|f]; [reflexivity|].
+  assert (Hloop : forall f', while_ (S f') (v1 <~ d_available E;; dret (v1 <? count)) (dret tt) (view k s out) =
+                            Some (count <=? fresh k s, view k s1 out)).
+  { intros f'. cbn [while_]. unfold d_available, view. dm. cbn [denv_of dn_avail].
+    rewrite lift_avail by exact Hwf. dm.
+    destruct (fresh k s <? count) eqn:Lt.
+    - (* not enough: the next rounds see the same *)
+      assert (Hle : (count <=? fresh k s) = false) by (apply Nat.leb_gt; apply Nat.ltb_lt in Lt; lia).
+      rewrite Hle. clear Hle.
+      assert (Hw1 : wf k s1) by (apply wf_refresh; exact Hwf).
+      destruct refresh_idem as (Rf & Rs).
+      induction f' as [|f'' IH]; [reflexivity|].
+      cbn [while_]. dm. unfold view.
+      rewrite (lift_avail_env k s s1) by (first [exact Hw1 | symmetry; apply env_refresh]). dm. rewrite Rf, Lt, Rs. exact IH.
+    - assert (Hle : (count <=? fresh k s) = true) by (apply Nat.leb_le; apply Nat.ltb_ge in Lt; lia).
+      rewrite Hle. reflexivity. }
+  unfold dbind at 1. rewrite Hloop. destruct (count <=? fresh k s); reflexivity.
+Qed.
+
+Corollary wait_for_publishes_nothing fuel count r d :
+  drun (d_wait_for E fuel count) (view k s out) = Some (r, d) -> d_pubs d = [] /\ d_slots d = slots s /\ d_evs d = [] /\ d_out d = out.
+Proof. rewrite tie_wait_for. intros H. inversion H. destruct fuel; cbn; auto. Qed.
+End WaitFor.
+
+(** the wrappers ([Detached], the [AsyncIterator] trait) only pass these calls on to the wrapped iterator *)
+Theorem pass_through_closed : forallb (fun x => snd x) DataFns.pass_through = true.
+Proof. reflexivity. Qed.
